@@ -616,7 +616,27 @@ type C11Case struct {
 	Sched SchedCfg   `json:"sched"`
 }
 
-var argTexts11 = []string{"", "v0", "v1", "v2", "x\"y", "line\nbreak", "ü日本", "absent-value", "a b", "\"\"", "0", "1"}
+var argTexts11 = []string{"", "v0", "v1", "v2", "x\"y", "line\nbreak", "ü日本", "absent-value", "a b", "\"\"", "0", "1",
+	"\x00", "a\x00b", "1\x002", "\x1f", "a,b", "a;b", "a|b", "$1", "\xff\xfe"}
+
+// confusableArgs returns two argument lists that any "join with a separator" or plain
+// concatenation maps to the same string: (x, y+sep+z) and (x+sep+y, z).
+func confusableArgs(r *simrt.Rand, n int) ([]Arg, []Arg) {
+	sep := []string{"", "\x00", ",", ";", "|", "\x1f", " "}[r.Intn(7)]
+	x, y, z := []string{"1", "v0", "a"}[r.Intn(3)], []string{"2", "v1", "b"}[r.Intn(3)], []string{"zz", "3", "v2"}[r.Intn(3)]
+	mk := func(vals ...string) []Arg {
+		var out []Arg
+		for i := 0; i < n; i++ {
+			s := S(vals[i%len(vals)])
+			if i >= len(vals) {
+				s = S("pad")
+			}
+			out = append(out, Arg{S: &s})
+		}
+		return out
+	}
+	return mk(x, y+sep+z), mk(x+sep+y, z)
+}
 
 func genArgs(r *simrt.Rand, si *schemaInfo, n int) []Arg {
 	var out []Arg
@@ -655,13 +675,26 @@ func genC11(c *Ctx) any {
 		q.GroupBy = GenGroupBy(r, si, 2, false)
 	}
 	dq := genDrvQuery(r, q, []int{300, 600, 1000}[r.Intn(3)])
+	deep := r.Chance(1, 150)
+	if deep {
+		// a long chain of NOTs in front: recursion limits. (The library computes cache keys in
+		// time quadratic in the depth; 10 000 levels cost seconds outside a scheduled run and
+		// are therefore only used there.)
+		depth := []int{100, 1000, 10000, 10002}[r.Intn(4)]
+		text := string(dq.Text)
+		gb := ""
+		if i := strings.Index(text, " ; "); i >= 0 {
+			text, gb = text[:i], text[i:]
+		}
+		dq.Text = S(strings.Repeat("^ ", depth) + "( " + text + " )" + gb)
+	}
 	cs.Text = dq.Text
 	tree, _ := RefParse(string(cs.Text))
 	maxPH := 0
 	if tree != nil {
 		pbToExpr(tree.Expr, nil, &maxPH)
 	}
-	conc := r.Chance(1, 3)
+	conc := r.Chance(1, 3) && !deep
 	for i, n := 0, r.Range(1, 8); i < n; i++ {
 		na := maxPH
 		if !conc {
@@ -683,6 +716,10 @@ func genC11(c *Ctx) any {
 			ex.Via = "stmt"
 		}
 		cs.Execs = append(cs.Execs, ex)
+	}
+	if !conc && maxPH >= 2 && r.Chance(1, 4) {
+		a, b := confusableArgs(r, maxPH)
+		cs.Execs = append(cs.Execs, C11Exec{Args: a, Via: "stmt"}, C11Exec{Args: b, Via: "stmt"}, C11Exec{Args: a, Via: "stmt"})
 	}
 	if conc {
 		cs.Tasks = r.Range(2, 3)
